@@ -254,7 +254,7 @@ def run(ck):
         r0 = numpy.zeros((dim, dim), dtype=complex)
         r0[dim - 1, dim - 1] = 0.6; r0[1, 1] = 0.4; r0[1, dim - 1] = r0[dim - 1, 1] = 0.2
         rho0 = ReducedDensityMatrix(data=r0.copy())
-        psi0 = StateVector(data=numpy.array([0.0] + [1.0 / numpy.sqrt(dim - 1)] * (dim - 1)))
+        psi0 = StateVector(data=numpy.array([0.0] + [1.0 / numpy.sqrt(dim - 1)] * (dim - 1), dtype=(complex if s % 2 == 0 else float)))
         cut_cm = rng.choice([30.0, 70.0, 150.0])
         cut_int = float(convert(cut_cm, "1/cm", "int"))
         inputs = {"ham": ham, "sbi": sbi, "time": ta, "rho0": rho0, "psi0": psi0, "agg": agg}
@@ -322,6 +322,7 @@ def run(ck):
         dk = "Gaussian" if s % 3 != 2 else "Lorentzian"
         plan += [("propdeph", dk, 0), ("propdeph", dk, 1), ("esodeph", dk)]
         plan.append(("refused", s % 2 == 0))
+        plan += [("sv",), ("sv",)]                # the same state vector propagated twice (its array is complex for every second system)
         if s % 3 == 0:
             # requests of one theory with different options, some of them allowed to reuse the aggregate's stored tensor
             plan += [("tensor", TKEYS[0], False, True), ("tensor", TKEYS[1], False, False), ("tensor", TKEYS[2], False, False),
